@@ -450,6 +450,8 @@ func (p *printer) node1(it *item) (string, error) {
 		return p.tag(it.l, "endfor", it.r), nil
 	case "strayclause":
 		return p.tag(it.l, "when 1", it.r), nil
+	case "strayelse": // (only where no enclosing block takes an else clause)
+		return p.tag(it.l, "else", it.r), nil
 	case "openraw": // raw / comment blocks that are never closed (they swallow what follows)
 		return p.tag(it.l, "raw", it.r), nil
 	case "opencomment":
